@@ -665,6 +665,39 @@ impl<T: FftNum> FftPlannerScalar<T> {
     }
 }
 
+#[cfg(rustfft_verif)]
+impl<T: FftNum> FftPlannerScalar<T> {
+    /// Verification hook: Debug text of the recipe designed for `len`
+    pub fn verif_recipe(&mut self, len: usize) -> String {
+        format!("{:?}", self.design_fft_for_len(len))
+    }
+}
+#[cfg(rustfft_verif)]
+impl<T: FftNum> FftPlanner<T> {
+    /// Verification hook: which concrete planner `new()` chose
+    pub fn verif_chosen(&self) -> &'static str {
+        match &self.chosen_planner {
+            ChosenFftPlanner::Scalar(_) => "scalar",
+            ChosenFftPlanner::Avx(_) => "avx",
+            ChosenFftPlanner::Sse(_) => "sse",
+            ChosenFftPlanner::Neon(_) => "neon",
+            ChosenFftPlanner::WasmSimd(_) => "wasm_simd",
+        }
+    }
+    /// Verification hook: Debug text of the plan the chosen planner would use for `len`
+    #[allow(unused_variables)]
+    pub fn verif_plan(&mut self, len: usize, direction: FftDirection) -> String {
+        match &mut self.chosen_planner {
+            ChosenFftPlanner::Scalar(p) => p.verif_recipe(len),
+            #[cfg(all(target_arch = "x86_64", feature = "avx"))]
+            ChosenFftPlanner::Avx(p) => p.verif_plan(len, direction),
+            #[cfg(all(target_arch = "x86_64", feature = "sse"))]
+            ChosenFftPlanner::Sse(p) => p.verif_recipe(len),
+            _ => String::from("unavailable"),
+        }
+    }
+}
+
 #[cfg(test)]
 mod unit_tests {
     use super::*;
